@@ -225,7 +225,11 @@ def P_C18 (nf : String → PRep) (mode client : String) (hasPayload pipelinedPay
           -- a service that drops its connection is an I/O error for the bridge
           else if exps.any (·.afterAbort) then none
           else some ("exit-status-" ++ o.exit ++ "-after-client-close")
-    else if b.ending == "timeout" then some "bridge-hangs-on-unanswered-call"
+    else if b.ending == "timeout" then
+      -- the bridge stopped answering.  When the direct runs show a call that the service itself never
+      -- answered (a direct reply list runs short), that is the known limitation; otherwise the bridge
+      -- hangs on a session that every service answers completely
+      some (if exps.any (·.afterAbort) then "bridge-hangs-on-unanswered-call" else "bridge-hangs")
     else
     match firstDivergence (routed.zip exps) b.out none false with
     | some v => some v
